@@ -384,6 +384,9 @@ def user_placeholder(draw, name):
             (r"\d{5}", ["00001", "12345", "99999", "12346"]),
             (r"[A-Z]{2}", ["AB", "AC", "ZZ", "BA"]),
             (r"[a-z]\d", ["a1", "a2", "b1", "z9"]),
+            # escape classes only: no other special character than "\\"
+            (r"\d\d\d\d\d", ["00001", "12345", "99999", "12346"]),
+            (r"\w\d", ["a1", "B2", "_3", "99"]),
             (r"[A-Za-z0-9]+", USER_VALUES),
         ]))
         return {"kind": "regex", "regex": regex, "values": values}
